@@ -4,6 +4,7 @@ package main
 // (build tag verif) next to the code they describe.
 
 import (
+	"sort"
 	"fmt"
 	"sync"
 	"go/ast"
@@ -334,6 +335,38 @@ func parseContractFile(path, pkgPath string) ([]*Contract, error) {
 			typeInvMu.Unlock()
 			continue
 		}
+		if word == "stable" {
+			// stable T.f [written-by F1, F2 ...] — field f of objects of type T keeps its
+			// value across calls whose effects are unknown (assumed; the write sites are
+			// audited by the effect checker: only the listed functions store to it)
+			decl, writers := rest, ""
+			if i := strings.Index(rest, "written-by"); i >= 0 {
+				decl, writers = strings.TrimSpace(rest[:i]), strings.TrimSpace(rest[i+len("written-by"):])
+			}
+			parts := strings.SplitN(decl, ".", 2)
+			if len(parts) != 2 {
+				return nil, fail(fmt.Errorf("stable T.f [written-by ...]"))
+			}
+			sf := &stableField{Pkg: pkgPath, Type: strings.TrimSpace(parts[0]), Field: strings.TrimSpace(parts[1])}
+			for _, w := range strings.Split(writers, ",") {
+				if w = strings.TrimSpace(w); w != "" {
+					sf.Writers = append(sf.Writers, w)
+				}
+			}
+			typeInvMu.Lock()
+			k := pkgPath + "." + sf.Type
+			dup := false
+			for _, o := range stableFields[k] {
+				if o.Field == sf.Field {
+					dup = true
+				}
+			}
+			if !dup {
+				stableFields[k] = append(stableFields[k], sf)
+			}
+			typeInvMu.Unlock()
+			continue
+		}
 		if word == "macro" {
 			// macro NAME(p1, p2) = BODY
 			eq := strings.Index(rest, "=")
@@ -518,6 +551,30 @@ type typeInv struct {
 	Expr ast.Expr
 	Text string
 	Pkg  string
+}
+
+type stableField struct {
+	Pkg, Type, Field string
+	Writers          []string
+}
+
+var stableFields = map[string][]*stableField{}
+
+func lookupStable(typeKey string) []*stableField {
+	typeInvMu.RLock()
+	defer typeInvMu.RUnlock()
+	return stableFields[typeKey]
+}
+
+func allStable() []*stableField {
+	typeInvMu.RLock()
+	defer typeInvMu.RUnlock()
+	var out []*stableField
+	for _, l := range stableFields {
+		out = append(out, l...)
+	}
+	sort.Slice(out, func(i, j int) bool { return out[i].Pkg+out[i].Type+out[i].Field < out[j].Pkg+out[j].Type+out[j].Field })
+	return out
 }
 
 var typeInvs = map[string]*typeInv{}
